@@ -159,7 +159,10 @@ func wireWorld(o *Outcome, sc *WireScn) (*World, error) {
 	opts := sc.Cfg.options()
 	opts.ReadOnly, opts.Secure, opts.AllowedIPs, opts.EnableRateLimiting, opts.RateLimitConfig = p.ReadOnly, p.Secure, p.AllowedIPs, p.EnableRateLimiting, p.RateLimitConfig
 	if sc.TimeoutMs > 0 {
-		opts.Timeouts = &absnfs.TimeoutConfig{DefaultTimeout: time.Duration(sc.TimeoutMs) * time.Millisecond}
+		if opts.Timeouts == nil {
+			opts.Timeouts = &absnfs.TimeoutConfig{}
+		}
+		opts.Timeouts.DefaultTimeout = time.Duration(sc.TimeoutMs) * time.Millisecond
 	}
 	if err := w.Start(opts); err != nil {
 		return nil, err
@@ -1064,6 +1067,12 @@ func genC08(r *simrt.Rand, tier string) any {
 		sc.Pol.ReadOnly = false
 		sc.Stalls = []simfs.Fault{{Op: []string{"Lstat", "Stat", "OpenFile"}[r.Int(3)], Nth: 1 + r.Int(6), Kind: "stall", Stall: time.Duration([]int{2000, 6000}[r.Int(2)]) * time.Millisecond}}
 		sc.Admin = []C16Admin{{AtUs: []int{600000, 900000, 1500000}[r.Int(3)], Pol: PolSpec{ReadOnly: true}}}
+		if r.Pct(50) {
+			// ... or its own per-procedure time-out (shorter than the request time-out), inside the data path
+			sc.TimeoutMs = 30000
+			sc.Cfg.OpTimeoutMs = []int{150, 400}[r.Int(2)]
+			sc.Stalls = []simfs.Fault{{Op: []string{"OpenFile", "File.WriteAt", "File.Sync", "Create", "Truncate", "Lstat"}[r.Int(6)], Nth: 1 + r.Int(6), Kind: "stall", Stall: time.Duration([]int{2000, 6000}[r.Int(2)]) * time.Millisecond}}
+		}
 	}
 	return sc
 }
